@@ -115,7 +115,10 @@ def oracle_scalar(chk, case, out, res):
     if math.isnan(out):
         # allowed only if the true integral is (within rounding) below the resolution... the property allows no NaN
         chk.fail("positive interval must not give NaN", case, out, true_integral=float(ref),
-                 below_abs_threshold=bool(float(ref) < res * (1 + 1e-6) + 2e-16 * A * float(ref)))
+                 below_abs_threshold=bool(float(ref) < res * (1 + 1e-6) + 2e-16 * A * float(ref)),
+                 # the subtraction m2^c - m1^c of two powers within a few ulps of each other: its rounding alone (<= 8e-16 * amplification, the
+                 # same bound as in the accuracy clause) can take the computed value to zero or below, which the threshold then turns into NaN
+                 cancelled_to_nan=bool(c != 0 and float(ref) * (1 - 8e-16 * A) < res * (1 + 1e-6)))
         return
     if not (out > 0):
         chk.fail("result is positive", case, out)
@@ -134,6 +137,8 @@ def classify(f):
     if cl == "positive interval must not give NaN" and f.get("below_abs_threshold"):
         return "pk_nan_below_abs_resolution"
     if cl == "integral to 1e-9 relative accuracy" and f.get("rounding_only"):
+        return "pk_generic_branch_cancellation"
+    if cl == "positive interval must not give NaN" and f.get("cancelled_to_nan"):
         return "pk_generic_branch_cancellation"
     return None
 
